@@ -195,6 +195,9 @@ def make_calls(rng, T, v, ref_encs):
             calls.append(('decode-damaged', codec, C.mutate(rng, ref_encs[codec])[1]))
         elif r < 0.8:
             calls.append(('stream', codec, ref_encs[codec] * rng.choice([1, 2])))
+        elif r < 0.83:
+            # a call that brings its own tag map (another codec's table): an option of that one call
+            calls.append(('decode-foreign-tagmap', codec, ref_encs[codec]))
         elif r < 0.85:
             calls.append(('native-encode', None, None))
         elif r < 0.92:
@@ -214,6 +217,9 @@ def run_call(call, T, schema, obj):
         return outcome_of(lambda: ENCODERS[codec].encode(B.pytree(T, B.absval(obj, T)), asn1Spec=schema))
     if kind in ('decode', 'decode-damaged'):
         return outcome_of(lambda: render_decoded(T, DECODERS[codec].decode(payload, asn1Spec=schema)))
+    if kind == 'decode-foreign-tagmap':
+        other = DECODERS[{'ber': 'der', 'der': 'ber', 'cer': 'ber'}[codec]]
+        return outcome_of(lambda: render_decoded(T, DECODERS[codec].decode(payload, asn1Spec=schema, tagMap=other.TAG_MAP)))
     if kind == 'stream':
         def go():
             out = []
@@ -322,6 +328,16 @@ def arm_history(res, rng, bt, contracts):
         except Exception:
             omit = False
     fp_s, fp_v = B.fingerprint(schema), B.fingerprint(obj)
+    # what every call of the history returns BEFORE the history has run (fresh objects each): the codec singletons
+    # and their tables are shared by the whole process, so a call that alters them shows up as a later call no
+    # longer returning what it returned before - the isolated re-run after the history cannot see that, it runs on
+    # the same altered singletons
+    def fresh_value():
+        return B.value(T, v, route=B.OmitDefaults()) if omit else B.value(T, v)
+    try:
+        baseline = [run_call(c, T, B.schema(T), fresh_value()) for c in calls]
+    except Exception:
+        baseline = None
     n_before = contracts.evaluations
     contracts.broken = []
     res.see('histories')
@@ -338,6 +354,10 @@ def arm_history(res, rng, bt, contracts):
         fresh_obj = B.value(T, v, route=B.OmitDefaults()) if omit else B.value(T, v)
         alone = run_call(call, T, fresh_schema, fresh_obj)
         res.see('isolation-comparisons')
+        if baseline is not None and alone != baseline[i]:
+            res.witness('outcome-differs-from-the-same-call-before-the-history:' + call[0], feats, case,
+                        'before %r after %r' % (repr(baseline[i])[:200], repr(alone)[:200]))
+            return
         if shared != alone:
             res.witness('outcome-differs-from-isolated-call:' + call[0], feats, case,
                         'shared %r alone %r' % (repr(shared)[:200], repr(alone)[:200]))
